@@ -115,6 +115,15 @@ func (listener *tcpLineListener) run() {
 			break
 		}
 
+		if listener.stopRequest.Peek() {
+			// accepted while stopping: its descriptor, used as client number below, may be that of a connection which has just
+			// been closed for the stop request and hasn't closed its sink yet
+			if err := newConn.Close(); err != nil {
+				listener.logger.Warn("error closing connection: ", err)
+			}
+			continue
+		}
+
 		newClientNumber := base.ClientNumber(util.GetFDFromTCPConnOrPanic(newConn))
 		newConnLogger := listener.logger.WithFields(logger.Fields{
 			defs.LabelPart:         "connection",
@@ -143,10 +152,13 @@ func (listener *tcpLineListener) runConnection(connLogger logger.Logger, conn *n
 	defer listener.taskCounter.Done()
 	connLogger.Info("started")
 
+	// The connection must not be closed before the sink is: the client number is the socket descriptor, which would be
+	// given to the next accepted connection while the sink of this one is still registered under the same number
+	connAborter := listener.launchConnectionCloser(connLogger, conn)
+	defer connAborter.Signal()
+
 	recvChan := listener.receiver.NewSink(conn.RemoteAddr().String(), clientNumber)
 	defer recvChan.Close()
-
-	connAborter := listener.launchConnectionCloser(connLogger, conn)
 
 	// short timeout for periodic flushing
 	connReader := listener.createConnectionReader(connLogger, conn)
@@ -187,7 +199,7 @@ func (listener *tcpLineListener) runConnection(connLogger logger.Logger, conn *n
 			if !util.IsNetworkClosed(readErr) {
 				connLogger.Warn("read() error: ", readErr)
 			}
-			connAborter.Signal()
+			// closed by the deferred connAborter.Signal() after the sink
 		}
 		break
 	}
